@@ -12,6 +12,15 @@ using namespace grv;
 namespace {
 uint64_t fnv(const std::string &s) { uint64_t h = 1469598103934665603ULL; for (unsigned char c : s) { h ^= c; h *= 1099511628211ULL; } return h; }
 struct Ev { int t, seq; std::string key, h; };
+// the feature values the face gives for its k-th language (k = number of languages: for language 0, the defaults)
+std::string lang_hash(const gr_face *face, unsigned k) {
+    const gr_uint32 lg = k < gr_face_n_languages(face) ? gr_face_lang_by_index(face, gr_uint16(k)) : 0;
+    gr_feature_val *fv = gr_face_featureval_for_lang(face, lg);
+    std::string s = std::to_string(lg) + ":";
+    for (unsigned q = 0; fv && q < gr_face_n_fref(face); ++q) s += std::to_string(gr_fref_feature_value(gr_face_fref(face, gr_uint16(q)), fv)) + ",";
+    if (fv) gr_featureval_destroy(fv);
+    return s;
+}
 std::string label_hash(const gr_face *face, unsigned k) {
     const gr_feature_ref *r = gr_face_fref(face, gr_uint16(k));
     gr_uint16 lang = 0x409; gr_uint32 len = 0;
@@ -69,6 +78,7 @@ GRV_CMD(threads) {
         gr_font *rfont = gr_make_font(14.0f, rf);
         for (size_t i = 0; i < texts.size(); ++i) { fprintf(tr, "{\"e\":\"Ref\",\"key\":\"s%zu\",\"h\":\"%s\"}\n", i, shape_hash(rf, rfont, texts[i], dir).c_str()); fprintf(tr, "{\"e\":\"Ref\",\"key\":\"n%zu\",\"h\":\"%s\"}\n", i, shape_hash(rf, 0, texts[i], dir).c_str()); }
         for (unsigned k = 0; k < gr_face_n_fref(rf); ++k) fprintf(tr, "{\"e\":\"Ref\",\"key\":\"l%u\",\"h\":\"%s\"}\n", k, label_hash(rf, k).c_str());
+        for (unsigned k = 0; k <= gr_face_n_languages(rf); ++k) fprintf(tr, "{\"e\":\"Ref\",\"key\":\"v%u\",\"h\":\"%s\"}\n", k, lang_hash(rf, k).c_str());
         gr_font_destroy(rfont); gr_face_destroy(rf);
     }
     // the shared cold face, created through counting callbacks
@@ -83,7 +93,7 @@ GRV_CMD(threads) {
     for (auto &e : tf.events) if (e.kind == 'G') fprintf(tr, "{\"e\":\"Get\",\"tag\":\"%s\"}\n", tagstr(e.tag).c_str());
     fprintf(tr, "{\"e\":\"MakeDone\"}\n");
     const long gets0 = tf.gets;
-    const unsigned nf = gr_face_n_fref(face);
+    const unsigned nf = gr_face_n_fref(face), nl = gr_face_n_languages(face);
     std::vector<std::vector<Ev>> logs(nth);
     std::atomic<int> go(0);
     std::vector<std::thread> th;
@@ -97,6 +107,8 @@ GRV_CMD(threads) {
             const bool withfont = (rng >> 8) & 1;
             logs[t].push_back(Ev{t, ++seq, std::string(withfont ? "s" : "n") + std::to_string(i), shape_hash(face, withfont ? gf : 0, texts[i], dir)});
             if (nf && (rng & 15) == 0) { const unsigned k = (rng >> 4) % nf; logs[t].push_back(Ev{t, ++seq, "l" + std::to_string(k), label_hash(face, k)}); }
+            // every thread asks for the settings of the languages too (and of language 0), in its own order
+            if ((rng & 3) == 1) { const unsigned k = (rng >> 5) % (nl + 1); logs[t].push_back(Ev{t, ++seq, "v" + std::to_string(k), lang_hash(face, k)}); }
         }
     });
     go.store(1);
